@@ -1,6 +1,6 @@
 (* Extraction.v — the only extraction directives of the development are the
    ones in ExtrOcamlBasic (bool, option, list, prod, unit, sumbool, sumor). *)
 From Coq Require Import ExtrOcamlBasic.
-From PX.Model Require Import Units.
+From PX.Model Require Import Units UnitsMap.
 Extraction Language OCaml.
-Extraction "model.ml" dispatch.
+Extraction "model.ml" dispatch_env env_add.
